@@ -4,7 +4,7 @@ import re
 import z3
 
 from .. import mirvc
-from ..mirvc import Engine, Ref, Agg, find_fn, summarize, seeds_for, model_values
+from ..mirvc import Engine, Ref, Agg, find_fn, summarize, seeds_for, model_values, callm
 
 # file-system writing primitives (std) as they appear in MIR callee strings
 PRIMITIVES = r"(^|[^\w])(remove_file|remove_dir|remove_dir_all|create_dir_all|create_dir|File::create|OpenOptions::open|File::set_permissions|set_permissions|rename|hard_link|symlink|copy)(::<|$)"
@@ -20,7 +20,7 @@ def writer_functions(fns, exempt=()):
         cs = set()
         for bb, stmts in fn.blocks.items():
             for s in stmts:
-                m = re.match(r"(?:(.+?) = )?([^=].*?)\((.*)\) -> ", s)
+                m = callm(s)
                 if m and re.search(r"\) -> (\[return: bb\d+, unwind|unwind )", s) and not s.startswith(("drop(", "assert(", "switchInt(")):
                     cs.add(m.group(2).strip())
                 cm = re.search(r"= \{closure@([^}]*)\}", s)
@@ -370,7 +370,7 @@ def vc_applied_patches_recorded(fns, variants, work):
     seeds = {"_0"} | cfg_seeds(fn, ["series_patches"])
     for bb, stmts in fn.blocks.items():
         for st_ in stmts:
-            m = re.match(r"(?:(.+?) = )?([^=].*?)\((.*)\) -> ", st_)
+            m = callm(st_)
             if m and callee_is(m.group(2).strip(), "save_applied_patches"):
                 seeds |= set(re.findall(r"_\d+", mirvc.split_top(m.group(3))[1]))
     eng.seeds = seeds
@@ -496,7 +496,7 @@ def vc_main_exit_status(fns, variants, work):
     seeds = set()
     for bb, stmts in fn.blocks.items():
         for st_ in stmts:
-            m = re.match(r"(_\d+) = ([^=].*?)\((.*)\) -> ", st_)
+            m = callm(st_, need_dst=True)
             if m and re.search(r"(^|::)run::<", m.group(2)):
                 seeds.add(m.group(1))
     if not seeds:
@@ -558,7 +558,7 @@ def vc_backup_window(fns, variants, work, fn_pat, tag):
     seeds = {config_param(fn), fp}
     for bb, stmts in fn.blocks.items():
         for s_ in stmts:
-            m = re.match(r"(?:(.+?) = )?([^=].*?)\((.*)\) -> ", s_)
+            m = callm(s_)
             if m and callee_is(m.group(2).strip(), "rollback_and_save_backup_files"):
                 seeds |= set(re.findall(r"_\d+", mirvc.split_top(m.group(3))[1]))
     eng.seeds = seeds
@@ -636,7 +636,7 @@ def vc_backup_loop(fns, variants, work):
             m = re.match(r"(_\d+) = copy \(\(\*(_\d+)\)\.0: usize\)$", s_)
             if m:
                 seeds |= {m.group(1), m.group(2)}
-            m = re.match(r"(_\d+) = ([^=].*?)\((.*)\) -> ", s_)
+            m = callm(s_, need_dst=True)
             if m and strip_generics(m.group(2)).endswith("::is_rename"):
                 seeds.add(m.group(1))
     eng.seeds = seeds
@@ -699,7 +699,7 @@ def vc_rej_only_failed(fns, variants, work):
             m = re.match(r"(_\d+) = copy \(\(\*(_\d+)\)\.0: usize\)$", s_)
             if m:
                 seeds |= {m.group(1), m.group(2)}
-            m = re.match(r"(_\d+) = ([^=].*?)\((.*)\) -> ", s_)
+            m = callm(s_, need_dst=True)
             if m and strip_generics(m.group(2)).endswith("FilePatchApplyReport::failed"):
                 seeds.add(m.group(1))
     eng.seeds = seeds
@@ -740,10 +740,10 @@ def vc_worker_stop_strict(fns, variants, work):
     seeds = set()
     for bb, stmts in fn.blocks.items():
         for s_ in stmts:
-            m = re.match(r"(_\d+) = ([^=].*?)\((.*)\) -> ", s_)
+            m = callm(s_, need_dst=True)
             if m and re.search(r"Atomic::<usize>::load$", m.group(2)):
                 seeds.add(m.group(1))
-            m = re.match(r"(?:(.+?) = )?([^=].*?)\((.*)\) -> ", s_)
+            m = callm(s_)
             if m and callee_is(m.group(2).strip(), "apply_one_file_patch"):
                 seeds |= set(re.findall(r"_\d+", mirvc.split_top(m.group(3))[1]))
     eng.seeds = seeds
@@ -792,7 +792,7 @@ def vc_rollback_direction(fns, variants, work, fn_pat, tag, sig=None):
     seeds = set()
     for bb, stmts in fn.blocks.items():
         for s_ in stmts:
-            m = re.match(r"(?:(_\d+) = )?([^=].*?)\((.*)\) -> ", s_)
+            m = callm(s_)
             if m and (re.search(r"FilePatch(::<[^>]*>)?::rollback$", m.group(2)) or strip_generics(m.group(2)).endswith("FilePatchApplyReport::direction")):
                 seeds |= set(re.findall(r"_\d+", m.group(3)))
                 if m.group(1):
@@ -916,7 +916,7 @@ def vc_direction_from_series(fns, variants, work):
     seeds = set()
     for bb, stmts in fn.blocks.items():
         for s_ in stmts:
-            m = re.match(r"(?:(_\d+) = )?([^=].*?)\((.*)\) -> ", s_)
+            m = callm(s_)
             if m and re.search(r"FilePatch(::<[^>]*>)?::apply$", m.group(2)):
                 a = mirvc.split_top(m.group(3))
                 seeds |= set(re.findall(r"_\d+", a[2] + " " + a[3]))
@@ -926,3 +926,67 @@ def vc_direction_from_series(fns, variants, work):
     eng.seeds = seeds | cfg_seeds(fn, ["fuzz"])
     eng.run()
     return summarize(eng, found, {"apply_call_sites_reached": reached[0]}, work, "c16d", witness_ok=reached[0] > 0, witness_note="FilePatch::apply not reached")
+
+
+# ------------------------------------------------------------------------------------------ generic ordering
+def vc_must_follow(fns, variants, work, fn_pat, trigger_pat, required_pat, tag, sig=None, ok_returns_only=True, what="required call missing", assume_fn=None, seeds=()):
+    """On every path that calls `trigger_pat` and then returns (with Ok, if the function returns a Result and
+    ok_returns_only), a call matching `required_pat` happened after the trigger."""
+    fn = find_fn(fns, fn_pat, sig)
+    found, trig, rets = [], [0], [0]
+
+    def on_call(eng, st, bb, site, stmt, dst, callee, args, nxt):
+        c = strip_generics(callee)
+        if re.search(trigger_pat, c):
+            trig[0] += 1
+            st.ghost = (st.ghost - {"req"}) | {"trig"}
+        elif re.search(required_pat, c) and "trig" in st.ghost:
+            st.ghost = st.ghost | {"req"}
+        return None
+
+    def on_return(eng, st, bb):
+        if "trig" not in st.ghost or "req" in st.ghost:
+            return
+        extra = []
+        d0 = st.store.get("_0#disc")
+        if ok_returns_only and eng.fn.types.get("_0", "").lstrip().startswith(("Result", "std::result::Result")):
+            if d0 is None:
+                d0 = eng.read_path(st, "_0#disc", "isize")
+            extra = [d0 == 0]
+        if assume_fn is not None:
+            extra = extra + list(assume_fn(eng, st))
+        rets[0] += 1
+        ok, model = eng.feasible(st, extra)
+        eng.record_query("%s %s" % (bb, what[:40]), list(st.pc) + extra)
+        if ok:
+            found.append({"bb": bb, "stmt": "return", "what": what, "model": {}, "trace": list(st.trace[-25:])})
+
+    eng = Engine(fns, fn, variants, hooks={"on_call": on_call, "on_return": on_return})
+    eng.seeds = {"_0"} | set(seeds)
+    eng.run()
+    return summarize(eng, found, {"trigger_sites_reached": trig[0], "returns_checked": rets[0]}, work, tag, witness_ok=trig[0] > 0,
+                     witness_note="trigger call not reached")
+
+
+FLUSH_PAT = r"Write>::flush$|BufWriter::flush$"
+
+
+def vc_rename_undo_restores(fns, variants, work):
+    """ModifiedFiles::rollback: when the file patch renamed the file (PatchStatus.renamed_over is Some), the renamed-over
+    file's state is restored after the content was moved out."""
+    idx = mirvc.struct_field_index("PatchStatus", "renamed_over")
+    if idx is None:
+        raise KeyError("PatchStatus.renamed_over")
+
+    def assume(eng, st):
+        ref = eng.read_path(st, "_2", eng.fn.types["_2"])
+        return [eng.read_path(st, "%s.%d#disc" % (ref.target, idx), "isize") == 1]
+
+    return vc_must_follow(fns, variants, work, r"::rollback$", r"ModifiedFile::move_out$", r"ModifiedFile::restore_renamed_over$", "c04r",
+                          sig=r"_1: &mut ModifiedFiles", what="rename undone without restoring the renamed-over file", assume_fn=assume, seeds={"_2"})
+
+
+def vc_bufwriter_flushed(fns, variants, work, fn_pat, tag, sig=None):
+    """Every success return after BufWriter::new has flushed the writer explicitly (drop would swallow the error)."""
+    return vc_must_follow(fns, variants, work, fn_pat, r"BufWriter::new$", FLUSH_PAT, tag, sig=sig,
+                          what="BufWriter dropped unflushed on a success path (a write error at flush would be swallowed)")
